@@ -12,7 +12,7 @@ import "sync"
 // a workspace after returning it to the pool, or relies on its contents, shows
 // up as a data race or a wrong value.
 
-const verifC09nOps = 9
+const verifC09nOps = 14
 
 // verifC09op runs operation id on the data (a: 2x2, b: 2x2, v: 2) and returns
 // the result as a flat slice.
@@ -54,6 +54,26 @@ func verifC09op(id int, ad, bd, vd []float64) []float64 {
 		u := NewTriDense(2, Upper, append([]float64(nil), bd...))
 		t.MulTri(t, u)
 		return t.RawTriangular().Data
+	case 9: // in-place subset: SymDense.isolatedWorkspace and its restore callback
+		s := NewSymDense(2, append([]float64(nil), ad...))
+		s.SubsetSym(s, []int{1, 0})
+		return s.RawSymmetric().Data
+	case 10: // self outer product: symmetric workspace
+		s := NewSymDense(2, append([]float64(nil), ad...))
+		s.SymOuterK(1, s)
+		return s.RawSymmetric().Data
+	case 11: // aliased band matrix-vector product: vector workspace
+		bm := NewBandDense(2, 2, 1, 1, append(append([]float64(nil), ad...), bd[0], bd[1]))
+		bm.MulVecTo(v, false, v)
+		return v.RawVector().Data
+	case 12: // aliased symmetric band product
+		sb := NewSymBandDense(2, 1, append([]float64(nil), bd...))
+		sb.MulVecTo(v, false, v)
+		return v.RawVector().Data
+	case 13: // aliased tridiagonal product
+		td := NewTridiag(2, []float64{ad[0]}, []float64{ad[1], ad[2]}, []float64{ad[3]})
+		td.MulVecTo(v, false, v)
+		return v.RawVector().Data
 	}
 	panic("verifC09op: id")
 }
